@@ -109,6 +109,54 @@ def visitor_rule(ctx, index, rule="C12.visitor"):
     ctx.floor("NodeTransformer subclasses with a replacement rule", n_cls, 1)
 
 
+def _cmp_rule(ctx, index):
+    """
+    cmp_ast is sync's change detector: "equal" means "do not touch". Pairing two sequences with zip / map /
+    a common index stops at the shorter one, so it must be dominated by a test that the lengths agree —
+    otherwise a target with extra (or missing) trailing parameters compares equal to the truth.
+    """
+    f = index.func("cdd.shared.ast_utils.cmp_ast")
+    ctx.need(len(f.params) >= 2, "cmp_ast(node0, node1) signature changed")
+    a, b = f.params[0], f.params[1]
+    facts_at = {}
+
+    def on_expr(n, facts):
+        facts_at[id(n)] = facts
+
+    GuardWalker(on_expr=on_expr).walk_function(f.node)
+    n = 0
+    for c in iter_own(f.node):
+        if not isinstance(c, ast.Call):
+            continue
+        fn = norm(c.func)
+        args = [norm(x) for x in c.args]
+        pairs = (fn == "zip" and args[:2] == [a, b]) or (fn in ("map", "starmap") and args[-2:] == [a, b])
+        if not pairs:
+            continue
+        n += 1
+        facts = facts_at.get(id(c)) or {}
+        ok = any(
+            ("len({})".format(a) in k and "len({})".format(b) in k)
+            and ((("!=" in k) and v is False) or (("==" in k) and v is True))
+            for k, v in facts.items()
+        )
+        ctx.ob(
+            "C12.gate",
+            f,
+            c,
+            ok,
+            ""
+            if ok
+            else "the two sequences are paired element-wise without a dominating length comparison: lists that differ only "
+            "by extra trailing elements compare equal, so sync reports 'unchanged' for a target with a longer or "
+            "shorter parameter list",
+        )
+    # recursion must reach every field: the AST branch iterates node0._fields
+    fields = [x for x in iter_own(f.node) if isinstance(x, ast.Attribute) and x.attr == "_fields"]
+    ctx.ob("C12.gate", f, "cmp_ast compares every field of AST nodes", bool(fields), "" if fields else "the AST branch no longer iterates _fields", line=f.node.lineno)
+    ctx.need(n >= 1, "cmp_ast no longer pairs the two sequences (recogniser out of date)")
+
+
 def run(ctx):
     """entry"""
     index = ctx.index
@@ -122,6 +170,7 @@ def run(ctx):
     )
     ctx.assumptions += ["NOT decided: equivalence of the re-parsed interface with the truth; idempotence of black (value level)"]
     visitor_rule(ctx, index)
+    _cmp_rule(ctx, index)
     # ---------------------------------------------------------------- gate
     cf = index.func("cdd.shared.conformance._conform_filename")
     facts_at = {}
